@@ -248,7 +248,7 @@ Qed.
 (* ------------------------------------------------------------------ the live-class invariant *)
 Definition lsub (hbc last wan : Z) (m : submsg) : Prop :=
   match m with
-  | SHb f l c => 1 <= c <= hbc /\ (c = hbc -> l = last)
+  | SHb f l c => f = 1 /\ 1 <= c <= hbc /\ (c = hbc -> l = last)
   | SAck b set c => c <= wan
   | SFrag _ _ | SNack _ _ _ _ => False
   | _ => True
@@ -275,7 +275,7 @@ Qed.
 Lemma hdg_ldg lo hi last wan d : 0 <= lo -> hdg lo hi last d -> ldg hi last wan d.
 Proof.
   intros H0 [_ H]. unfold ldg. eapply Forall_impl; [|exact H]. intros m. destruct m; cbn; try tauto.
-  intros (A & B & C). split; [lia|]. intros _. assumption.
+  intros (A & B & C). split; [assumption|]. split; [lia|]. intros _. assumption.
 Qed.
 
 Record LOk (strict : bool) (s : state) (p : rproxy) (w : wproxy) : Prop := mkLOk {
@@ -379,7 +379,7 @@ Proof.
     destruct F as (F1 & F2 & F3 & F4).
     refine (conj eq_refl (conj eq_refl (conj eq_refl (conj _ (conj _ _))))); try constructor; try lia.
     unfold RL. rewrite F1, F3, F4. repeat split; try lia; auto.
-  - destruct Hm as [Hc1 Hc2]. destruct (on_hb cf w f l c) as [w1 o] eqn:Eh.
+  - destruct Hm as [Hf1 [Hc1 Hc2]]. destruct (on_hb cf w f l c) as [w1 o] eqn:Eh.
     rewrite (on_hb_nofrag cf w f l c R3) in Eh.
     assert (Hr1 : rd_wp r1 = Some w1 /\ rd_alive r1 = rd_alive r /\ rd_rel r1 = rd_rel r /\ out = o).
     { destruct (hist_received (rd_wp (rd_present r w1 None))); inversion E; subst; cbn; auto. }
@@ -840,7 +840,7 @@ Proof.
            split; [exact Hfr|]. split; [destruct A2; lia|]. split; [constructor|]. split; [rewrite Hnet; constructor|].
            unfold ROk, RB, RCrel, Complete; cbn. destruct A2 as [_ A2].
            repeat split; try lia; try constructor.
-      * linv_split; cbn; try assumption.
+      * linv_split; cbn; try assumption; try reflexivity.
         -- intros r' Hr'. injection Hr' as <-. reflexivity.
         -- intros p r' w Ep Hrel Er' Ew. injection Ep as <-. injection Er' as <-. cbn in Ew. injection Ew as <-.
            constructor; cbn; try lia; try reflexivity; try discriminate.
@@ -850,7 +850,7 @@ Proof.
         -- destruct HS as [S1 S2 S3 S4 S5]. constructor; cbn; try assumption. reflexivity.
         -- intros Hn. cbn in Hn. discriminate.
         -- destruct HA as [A1 A2 A3]. constructor; cbn; try assumption. rewrite Hrp. exact I.
-      * linv_split; cbn; try assumption.
+      * linv_split; cbn; try assumption; try reflexivity.
         -- intros r' Hr'. injection Hr' as <-. reflexivity.
         -- intros p r' w Ep. congruence.
   - (* AWfa *) unfold step. cbn [act].
@@ -876,4 +876,184 @@ Proof.
     intros r' Hr'. cbn in Hr'. injection Hr' as <-. exists r. cbn. auto.
   - (* AQuery *) unfold step. cbn [act fst]. apply Live_poke with (b := true). assumption.
   - (* ANow *) unfold step. cbn [act fst]. apply Live_poke with (b := true). assumption.
+Qed.
+
+Lemma Live_run cf l : 0 < fsz cf -> depth cf = 0 -> forallb (live_act cf) l = true ->
+  forall s, Live true cf s -> Live true cf (run cf s l).
+Proof.
+  intros Hf Hd. induction l as [|a t IH]; intros Hl s H; [exact H|]. cbn in Hl. apply andb_prop in Hl.
+  destruct Hl as [Ha Ht]. rewrite run_cons. apply IH; [assumption|]. apply Live_step; assumption.
+Qed.
+
+Lemma Live_init cf : Live true cf init.
+Proof.
+  split; [apply CInv_init|]. linv_split; cbn; try lia; try reflexivity.
+  - intros c [].
+  - intros r Hr. discriminate.
+  - intros p r w Hp. discriminate.
+Qed.
+
+(* ------------------------------------------------------------------ the healing invariant *)
+Lemma firstn_ge_all {A} n (l : list A) : (length l <= n)%nat -> firstn n l = l.
+Proof. revert n; induction l as [|x t IH]; intros n H; destruct n; cbn in *; try reflexivity; try lia. f_equal. apply IH. lia. Qed.
+
+Lemma zrange_length a b : length (zrange a b) = Z.to_nat (b - a + 1).
+Proof. unfold zrange. rewrite map_length, seq_length. reflexivity. Qed.
+
+(* the ACKNACK that answers a heartbeat announcing 1..last while hr < last <= 256 requests `last` *)
+Lemma ack_set_has_last hr l last : 0 <= hr -> l = last -> hr < last -> last <= 256 ->
+  In last (firstn 256 (zrange (Z.max 1 (hr + 1)) (Z.max l hr))).
+Proof.
+  intros H0 -> Hlt H256. rewrite firstn_ge_all by (rewrite zrange_length; lia). apply in_zrange. lia.
+Qed.
+
+
+(* ------------------------------------------------------------------ datagram shapes in the class *)
+Inductive nshape : dgram -> Prop :=
+| ns_data1 c : nshape (toR [SData c])                          (* best-effort path *)
+| ns_data c f l cnt : nshape (toR [SData c; SHb f l cnt])
+| ns_gap a b : nshape (toR [SGap a b])
+| ns_gaphb a b f l cnt : nshape (toR [SGap a b; SHb f l cnt])
+| ns_hb f l cnt : nshape (toR [SHb f l cnt])
+| ns_ack b set cnt : nshape (toW [SAck b set cnt]).
+
+Lemma unsent_rel_shape fuel cf now chs : unfrag cf chs ->
+  forall p acc, Forall nshape acc -> Forall nshape (snd (unsent_rel fuel cf now chs p acc)).
+Proof.
+  intros Hu. induction fuel as [|f IH]; intros p acc Ha; cbn [unsent_rel]; [assumption|].
+  destruct (next_unsent p chs) as [n|]; [|assumption].
+  destruct (rp_hs p + 1 <? n).
+  - unfold gen_hb. apply IH. apply Forall_app; split; [assumption|]. constructor; [constructor|constructor].
+  - destruct (lookup_relevant p n chs) as [c|] eqn:El.
+    + apply lookup_relevant_in in El. destruct El as (Hc & _ & _). unfold gen_hb.
+      assert (1 <? nfrags cf c = false) as -> by (apply Z.ltb_ge; apply Hu; assumption).
+      apply IH. apply Forall_app; split; [assumption|]. constructor; [constructor|constructor].
+    + apply IH. apply Forall_app; split; [assumption|]. constructor; [constructor|constructor].
+Qed.
+
+Lemma req_loop_shape fuel cf now chs : unfrag cf chs ->
+  forall p acc, Forall nshape acc -> Forall nshape (snd (req_loop fuel cf now chs p acc)).
+Proof.
+  intros Hu. induction fuel as [|f IH]; intros p acc Ha; cbn [req_loop]; [assumption|].
+  destruct (zmin_list (rp_req p)) as [n|]; [|assumption].
+  match goal with |- context [lookup_relevant ?q n chs] => destruct (lookup_relevant q n chs) as [c|] eqn:El end.
+  - apply lookup_relevant_in in El. destruct El as (Hc & _ & _). unfold gen_hb.
+    assert (1 <? nfrags cf c = false) as -> by (apply Z.ltb_ge; apply Hu; assumption).
+    apply IH. apply Forall_app; split; [assumption|]. constructor; [constructor|constructor].
+  - apply IH. apply Forall_app; split; [assumption|]. constructor; [constructor|constructor].
+Qed.
+
+Lemma write_rel_shape cf now chs p : unfrag cf chs -> Forall nshape (snd (write_rel cf now chs p)).
+Proof.
+  intros Hu. unfold write_rel.
+  match goal with |- context [let '(p1, out1) := ?X in _] => destruct X as [p1 out1] eqn:E1 end.
+  apply req_loop_shape; [assumption|].
+  destruct (next_unsent p chs).
+  - replace out1 with (snd (unsent_rel (S (length chs)) cf now chs p [])) by (rewrite E1; reflexivity).
+    apply unsent_rel_shape; [assumption|constructor].
+  - destruct (negb _); [inversion E1; constructor|].
+    destruct (time_for_hb p now); unfold gen_hb in E1; inversion E1; constructor; constructor.
+Qed.
+
+Lemma write_be_shape fuel cf chs : unfrag cf chs ->
+  forall p acc, Forall nshape acc -> Forall nshape (snd (write_be_loop fuel cf chs p acc)).
+Proof.
+  intros Hu. induction fuel as [|f IH]; intros p acc Ha; cbn [write_be_loop]; [assumption|].
+  destruct (next_unsent p chs) as [n|]; [|assumption].
+  destruct (rp_hs p + 1 <? n).
+  - apply IH. apply Forall_app; split; [assumption|]. constructor; [constructor|constructor].
+  - destruct (find_change n chs) as [c|] eqn:El.
+    + apply find_change_in in El. destruct El as [Hc _].
+      assert (1 <? nfrags cf c = false) as -> by (apply Z.ltb_ge; apply Hu; assumption).
+      apply IH. apply Forall_app; split; [assumption|]. constructor; [constructor|constructor].
+    + apply IH. apply Forall_app; split; [assumption|]. constructor; [constructor|constructor].
+Qed.
+
+Lemma write_message_shape cf now chs p : unfrag cf chs -> Forall nshape (snd (write_message cf now chs p)).
+Proof.
+  intros Hu. unfold write_message. destruct (rp_rel p); [apply write_rel_shape; assumption|].
+  apply write_be_shape; [assumption|constructor].
+Qed.
+
+(* --- how the reader processes the shapes *)
+Lemma step_nohb cf r w m r1 out : rd_wp r = Some w -> wp_frags w = [] ->
+  (match m with SData _ | SGap _ _ => True | _ => False end) ->
+  deliver_sub_R cf r m = (r1, out) ->
+  exists w1, rd_wp r1 = Some w1 /\ wp_frags w1 = [] /\ wp_hr w <= wp_hr w1 /\ wp_hb w1 = wp_hb w /\
+    wp_an w1 = wp_an w /\ wp_la w1 = wp_la w /\ out = [].
+Proof.
+  intros Ew Hfr Hm E. unfold deliver_sub_R in E. rewrite Ew in E. destruct m; try contradiction.
+  - destruct (on_data (rd_rel r) w c) as [w1 oc] eqn:Ed. inversion E; subst.
+    destruct (on_data_fields _ _ _ _ _ Ed) as (F1 & F2 & F3 & F4).
+    exists w1. destruct (rd_present_proj r w1 oc) as [P1 _].
+    refine (conj P1 (conj (F4 Hfr) (conj _ (conj F1 (conj F2 (conj F3 eq_refl)))))).
+    unfold on_data in Ed. destruct (rd_rel r).
+    + destruct (_ =? _); inversion Ed; subst; cbn; [destruct (Z.ltb_spec (wp_hr w) (c_sn c)); lia|lia].
+    + destruct (_ <=? _); [|inversion Ed; subst; lia].
+      destruct (_ <? _); inversion Ed; subst; cbn; destruct (Z.ltb_spec (wp_hr w) (c_sn c)); lia.
+  - inversion E; subst. exists (on_gap w start base). cbn [rd_present rd_wp].
+    unfold on_gap. destruct ((start <? base) && (wp_hr w <? base - 1)) eqn:Eg; cbn; repeat split; try lia; try assumption.
+    all: try (apply andb_prop in Eg; destruct Eg as [_ Eg]; apply Z.ltb_lt in Eg; lia).
+Qed.
+
+Lemma step_hb cf r w f l c r1 out : rd_wp r = Some w -> wp_frags w = [] ->
+  deliver_sub_R cf r (SHb f l c) = (r1, out) ->
+  exists w1, rd_wp r1 = Some w1 /\ wp_frags w1 = [] /\ wp_hr w1 = wp_hr w /\
+    ((wp_hb w < c /\ wp_hb w1 = c /\ wp_an w1 = wp_an w + 1 /\ wp_la w1 = l /\
+      out = [toW [SAck (Z.max (f - 1) (wp_hr w) + 1)
+                       (firstn 256 (zrange (Z.max f (wp_hr w + 1)) (Z.max l (wp_hr w)))) (wp_an w + 1)]]) \/
+     (c <= wp_hb w /\ w1 = w /\ out = [])).
+Proof.
+  intros Ew Hfr E. unfold deliver_sub_R in E. rewrite Ew in E.
+  destruct (on_hb cf w f l c) as [w1 o1] eqn:Eh. rewrite (on_hb_nofrag cf w f l c Hfr) in Eh.
+  assert (Hr1 : rd_wp r1 = Some w1 /\ out = o1).
+  { destruct (hist_received (rd_wp (rd_present r w1 None))); inversion E; subst; cbn; auto. }
+  destruct Hr1 as (Q1 & ->). exists w1.
+  destruct (Z.ltb_spec (wp_hb w) c) as [Hlt|Hge]; inversion Eh; subst w1 o1; cbn.
+  - refine (conj Q1 (conj eq_refl (conj eq_refl (or_introl _)))). repeat split; try lia; reflexivity.
+  - refine (conj Q1 (conj Hfr (conj eq_refl (or_intror _)))). repeat split; try lia; reflexivity.
+Qed.
+
+(* delivery of one shaped datagram to a reader without buffered fragments *)
+Lemma deliver_R_shape cf r w d r1 out : rd_wp r = Some w -> wp_frags w = [] -> nshape d -> dg_toR d = true ->
+  deliver_subs_R cf r (dg_subs d) [] = (r1, out) ->
+  exists w1, rd_wp r1 = Some w1 /\ wp_frags w1 = [] /\ wp_hr w <= wp_hr w1 /\
+    ((wp_hb w1 = wp_hb w /\ wp_an w1 = wp_an w /\ wp_la w1 = wp_la w /\ out = [] /\
+      (forall f l c, In (SHb f l c) (dg_subs d) -> c <= wp_hb w)) \/
+     (exists f l c, In (SHb f l c) (dg_subs d) /\ wp_hb w < c /\ wp_hb w1 = c /\ wp_an w1 = wp_an w + 1 /\
+        wp_la w1 = l /\
+        out = [toW [SAck (Z.max (f - 1) (wp_hr w1) + 1)
+                         (firstn 256 (zrange (Z.max f (wp_hr w1 + 1)) (Z.max l (wp_hr w1)))) (wp_an w + 1)]])).
+Proof.
+  intros Ew Hfr Hsh Hdir E. destruct Hsh; cbn in Hdir; try discriminate; cbn [dg_subs toR deliver_subs_R] in E.
+  - (* DATA *) destruct (deliver_sub_R cf r (SData c)) as [r' o] eqn:Em.
+    destruct (step_nohb cf r w (SData c) r' o Ew Hfr I Em) as (w1 & A & B & C & D & F & G & ->).
+    inversion E; subst. exists w1. refine (conj A (conj B (conj C (or_introl _)))).
+    repeat split; try assumption. intros f l c0 [Hx|[]]. discriminate.
+  - (* DATA + HEARTBEAT *) destruct (deliver_sub_R cf r (SData c)) as [r' o] eqn:Em.
+    destruct (step_nohb cf r w (SData c) r' o Ew Hfr I Em) as (w' & A & B & C & D & F & G & ->).
+    destruct (deliver_sub_R cf r' (SHb f l cnt)) as [r2 o2] eqn:Em2.
+    destruct (step_hb cf r' w' f l cnt r2 o2 A B Em2) as (w1 & A1 & B1 & C1 & Hc).
+    cbn in E. inversion E; subst. exists w1. refine (conj A1 (conj B1 (conj _ _))); [lia|].
+    destruct Hc as [(H1 & H2 & H3 & H4 & ->)|(H1 & -> & ->)].
+    + right. exists f, l, cnt. rewrite C1. repeat split; try lia; try assumption; try (right; left; reflexivity); try (rewrite F; reflexivity).
+    + left. repeat split; try assumption. intros f0 l0 c0 [Hx|[Hx|[]]]; [discriminate|]. inversion Hx; subst. lia.
+  - (* GAP *) destruct (deliver_sub_R cf r (SGap a b)) as [r' o] eqn:Em.
+    destruct (step_nohb cf r w (SGap a b) r' o Ew Hfr I Em) as (w1 & A & B & C & D & F & G & ->).
+    inversion E; subst. exists w1. refine (conj A (conj B (conj C (or_introl _)))).
+    repeat split; try assumption. intros f l c0 [Hx|[]]. discriminate.
+  - (* GAP + HEARTBEAT *) destruct (deliver_sub_R cf r (SGap a b)) as [r' o] eqn:Em.
+    destruct (step_nohb cf r w (SGap a b) r' o Ew Hfr I Em) as (w' & A & B & C & D & F & G & ->).
+    destruct (deliver_sub_R cf r' (SHb f l cnt)) as [r2 o2] eqn:Em2.
+    destruct (step_hb cf r' w' f l cnt r2 o2 A B Em2) as (w1 & A1 & B1 & C1 & Hc).
+    cbn in E. inversion E; subst. exists w1. refine (conj A1 (conj B1 (conj _ _))); [lia|].
+    destruct Hc as [(H1 & H2 & H3 & H4 & ->)|(H1 & -> & ->)].
+    + right. exists f, l, cnt. rewrite C1. repeat split; try lia; try assumption; try (right; left; reflexivity); try (rewrite F; reflexivity).
+    + left. repeat split; try assumption. intros f0 l0 c0 [Hx|[Hx|[]]]; [discriminate|]. inversion Hx; subst. lia.
+  - (* HEARTBEAT *) destruct (deliver_sub_R cf r (SHb f l cnt)) as [r2 o2] eqn:Em2.
+    destruct (step_hb cf r w f l cnt r2 o2 Ew Hfr Em2) as (w1 & A1 & B1 & C1 & Hc).
+    cbn in E. inversion E; subst. exists w1. refine (conj A1 (conj B1 (conj _ _))); [lia|].
+    destruct Hc as [(H1 & H2 & H3 & H4 & ->)|(H1 & -> & ->)].
+    + right. exists f, l, cnt. rewrite C1. repeat split; try lia; try assumption; try (left; reflexivity).
+    + left. repeat split; try reflexivity. intros f0 l0 c0 [Hx|[]]. inversion Hx; subst. lia.
 Qed.
